@@ -258,5 +258,17 @@ CHECKS['C01'] = dict(
     note=('Trusted: parser determinism; C20 (layout); "any conforming ES5 parser" not decidable here. Known finding F8p (1 .y).'),
 )
 
+CHECKS['C19'] = dict(
+    engine='E4',
+    level='other',
+    ref='DESIGN.md 4 (C19), 5',
+    technique='bounded executable contract with json.loads as post-condition oracle; exhaustive per-token tables (every \\uXXXX escape, raw characters, escapes, number spellings)',
+    text=('No deductive contract is within reach: the extractor is a 1300-line rule table interpreted by the generic walker. The check is '
+          'a bounded stand-in and labelled so: JSON values of every scalar class and small nesting shape (plus random deeper ones), bound '
+          'by var, by assignment, inside a function and among other statements, with fold_ops off and on, must extract to exactly '
+          '{name: json.loads(text)}; the literal semantics are covered by exhaustive token-level tables. Nothing here is counted as proved.'),
+    note='Oracle: json.loads. Known findings F18a ("\\/"), F18b (surrogate-pair escapes).',
+)
+
 NOT_APPLICABLE = {p: PENDING for p in ['C03', 'C07',
-                                        'C19']}
+                                        ]}
